@@ -12,7 +12,7 @@ RULE = ("every set() with a name and every sequence of 0..K values over 14 value
         "non-trivial = an entry is expected; distinct by (command, arguments, doc, position)")
 
 FORMS = ["v", "x", "1", "a;b", '""', '"q"', '"a b"', '"a\\"b"', '"\\""', '"x"', "${r}", "[[b c]]", "[=[z]=]", "CACHE",
-         '"l1\nl2"', '"c\\\nd"']   # quoted values with a real line break / a line continuation
+         '"l1\nl2"', '"c\\\nd"', "SELF_VAR"]   # the last one equals the variable's own name   # quoted values with a real line break / a line continuation
 CORE = ["v", '""', '"a b"', '"a\\"b"', "${r}", "[[b c]]"]
 HELPS = ['"h"', '"help text"', "[[h]]", "${h}"]
 DEFAULTS = [None, "ON", "OFF", "${d}"]
@@ -62,7 +62,7 @@ def run(ctx):
     jobs = []
     for vals in seqs:
         for doc in (1, 0):
-            for p in positions({"k": "set", "doc": doc, "values": vals}):
+            for p in positions({"k": "set", "doc": doc, "values": vals, "name": "SELF_VAR"}):
                 jobs.append(p)
     for h in HELPS:
         for d in DEFAULTS:
